@@ -112,6 +112,19 @@ def gen(rng, n, tier="quick"):
             st, v = call(J.julianday_modified, dt)
             yield Case("julianday_modified", "julianday_modified %s" % I(wall_us(dt)),
                        FS(v) if st == "ok" else E(v), {"datetime": str(dt)})
+            # instances of user subclasses of datetime / date mean what their fields say
+            import gens as _g
+            sdt, sd = _g.as_sub(dt), _g.as_sub(d)
+            st, v = call(J.julianday, sdt, calv)
+            yield Case("julianday", "julianday_dt %s %s" % (I(wall_us(dt)), I(cal)),
+                       FS(v) if st == "ok" else E(v), {"datetime": str(dt), "calendar": cal,
+                                                       "type": "datetime subclass"})
+            st, v = call(J.julianday, sd, calv)
+            yield Case("julianday", "julianday_date %s %s" % (I(o), I(cal)),
+                       FS(v) if st == "ok" else E(v), {"date": str(d), "calendar": cal, "type": "date subclass"})
+            st, v = call(J.julianday_modified, sdt)
+            yield Case("julianday_modified", "julianday_modified %s" % I(wall_us(dt)),
+                       FS(v) if st == "ok" else E(v), {"datetime": str(dt), "type": "datetime subclass"})
         elif k == 3:
             # inverse: feed the forward value (property C15's round trip) or a raw float
             if rng.random() < 0.7:
